@@ -168,6 +168,19 @@ def run(ctx):
                      'programs decided for all predicate/data valuations and register/memory states; '
                      'non-exclusive programs must be rejected (converse not demanded)' % cnt,
                sample=dict(tree=trees[len(trees) // 4]))
+    from vlib.guard import guarded
+    for variant in ('defaults_reuse', 'mem_two_blocks'):
+        r = guarded(lambda: CT.block_sequences(variant))
+        if r.get('crashed'):
+            ctx.crashes.append('C07.block_sequences: ' + r['observed'][-300:])
+        elif r['failed']:
+            ctx.confirm_and_report('C07.block_sequences[%s]' % variant, 'call',
+                                   dict(module='fam.condtrees', func='block_sequences', kwargs=dict(variant=variant)),
+                                   canonical_input=dict(variant=variant), function=FUNCS,
+                                   text='several conditional_assignment blocks in a row do not each behave as documented')
+    ctx.family('C07.block_sequences', 'B', instances=2, evaluations=36, nontrivial=2,
+               bound='two blocks sharing one defaults dict object (all valuations); one memory written conditionally in '
+                     'two separate blocks (24 random cycles)', sample=dict(variant='defaults_reuse'))
     ctx.assume('z3 soundness; spec/netsem.py; reference tree interpreter fam/condtrees.py')
     return ctx.finish('other', './check C07', ['z3', 'pyvc', 'spec/netsem.py', 'elab/n2smt.py'],
                       'P: _finalize gives every target the rhs of its unique active branch, else its default, for any '
